@@ -69,7 +69,7 @@ class DomainS(metaclass = Singleton):
         if length is None and name[-1] == '*':
             # Allow initialization of a complementary domain without length!
             try:
-                length = len(cls(cname, length = None))
+                length = cls(cname, length = None).length
                 newargs = {'length': length}
             except SingletonError:
                 pass
@@ -77,7 +77,7 @@ class DomainS(metaclass = Singleton):
             # Forbid initialization of a non-complementary domain with conflicting length.
             clength = length
             try:
-                clength = len(cls(cname))
+                clength = cls(cname).length
                 cls(cname, length = length)
             except SingletonError:
                 if clength != length:
@@ -85,7 +85,7 @@ class DomainS(metaclass = Singleton):
         elif length is not None and name[-1] == '*':
             # Forbid initialization of a complementary domain with conflicting length.
             try:
-                clength = len(cls(cname))
+                clength = cls(cname).length
             except SingletonError:
                 clength = length
             if clength != length:
